@@ -8,6 +8,8 @@
   returning `.ok`, i.e. on the Python call returning normally), every fuel value.
 -/
 import NemoVerif.Lemmas.LifetimeT2
+import NemoVerif.Lemmas.LifetimeLinked
+import NemoVerif.Lemmas.LifetimeCount
 namespace NemoVerif.C06
 open NemoVerif.Lifetime
 
@@ -411,11 +413,11 @@ theorem children_stopped (n : Nat) (l : List Nat) (s s1 : State)
     parent is a restarted instance of that parent;  nobody lists the main flow, which has no parent; every live
     instance is in the iteration order.  `act.act1`: a STARTING/STARTED action that has not been sent a `Stop` has
     scope count ≥ 1;  `act.act0`: a STOPPING action has been sent its `Stop`. -/
-structure LifetimeInv (s : State) : Prop where
+structure LifetimeInv0 (s : State) : Prop where
   flow : FlowInv s
   act : ActInv s
 
-theorem lifetime_inv_init : LifetimeInv initState := by
+theorem lifetime_inv0_init : LifetimeInv0 initState := by
   refine ⟨⟨?_, ?_, ?_, ?_, ?_⟩, ⟨?_, ?_⟩⟩
   · intro p pf c cf hp hc
     simp only [initState] at hp
@@ -462,7 +464,7 @@ theorem labelRestart_core (s : State) (u : Nat) (s' : State) (h : labelRestart s
       simpa using this
 
 /-- every operation preserves the invariant -/
-theorem lifetime_inv_step (s : State) (op : IOp) (hi : LifetimeInv s) : LifetimeInv (applyOp s op) := by
+theorem lifetime_inv0_step (s : State) (op : IOp) (hi : LifetimeInv0 s) : LifetimeInv0 (applyOp s op) := by
   cases op with
   | abort n u d =>
     simp only [applyOp]
@@ -582,7 +584,7 @@ theorem lifetime_inv_step (s : State) (op : IOp) (hi : LifetimeInv s) : Lifetime
     | error e => exact hi
     | ok s' =>
       obtain ⟨ho, ha, hout, hc⟩ := labelRestart_core s u s' h
-      show LifetimeInv s'
+      show LifetimeInv0 s'
       exact ⟨hi.flow.of_core ho hc, hi.act.congr ha (fun _ => by rw [hout])⟩
   | frame u heads scopes =>
     simp only [applyOp]
@@ -597,6 +599,24 @@ theorem lifetime_inv_step (s : State) (op : IOp) (hi : LifetimeInv s) : Lifetime
       rw [modFlow_some _ _ _ _ hf]
       exact ⟨hi.flow.of_core rfl (core_setFlow s u f _ hf rfl), hi.act.congr rfl (fun _ => rfl)⟩
 
+/-- The full invariant (phase 4).  `base` as above; `link` (clause iv): every listening instance is listed in the
+    `child_flow_uids` of its parent, parent pointers are live, the main flow is a root; `cnt` (clause iii): the iteration
+    order lists exactly the live instances once, and every STARTING/STARTED action that has not been sent a `Stop` has
+    `flow_scope_count ≤` number of its occurrences in the `action_uids` of listening-or-STOPPING instances. -/
+structure LifetimeInv (s : State) : Prop where
+  base : LifetimeInv0 s
+  link : LinkInv s
+  cnt : CountInv s
+
+theorem LifetimeInv.flow {s : State} (h : LifetimeInv s) : FlowInv s := h.base.flow
+theorem LifetimeInv.act {s : State} (h : LifetimeInv s) : ActInv s := h.base.act
+
+theorem lifetime_inv_init : LifetimeInv initState := ⟨lifetime_inv0_init, LinkInv.init, CountInv.init⟩
+
+/-- every operation preserves the invariant -/
+theorem lifetime_inv_step (s : State) (op : IOp) (hi : LifetimeInv s) : LifetimeInv (applyOp s op) :=
+  ⟨lifetime_inv0_step s op hi.base, LinkInv.step s op hi.link, CountInv.step s op hi.base.act hi.cnt⟩
+
 /-- **T2**: the invariant holds in every state the operation-sequence semantics can reach. -/
 theorem lifetime_invariant (ops : List IOp) : LifetimeInv (run ops) := by
   unfold run
@@ -606,13 +626,72 @@ theorem lifetime_invariant (ops : List IOp) : LifetimeInv (run ops) := by
   | nil => intro s hs; exact hs
   | cons op l ih => intro s hs; exact ih _ (lifetime_inv_step s op hs)
 
-/-- parent-form reading: wherever the parent still lists the child (`child_flow_uids`), a listening
+/-- children-form reading: wherever the parent still lists the child (`child_flow_uids`), a listening
     non-activated instance has a listening (or STOPPING) parent -/
 theorem lifetime_parent_form (ops : List IOp) (c p : Nat) (cf pf : Flow) (hc : (run ops).flows c = some cf)
     (hp : (run ops).flows p = some pf) (hlisted : c ∈ pf.children) (hl : cf.status.listening = true) (ha : cf.activated = 0) :
     pf.status.listening = true ∨ pf.status = .stopping :=
   (lifetime_invariant ops).flow.dc p pf c cf hp hlisted hc (fun h => h) ha hl
 
+/-- **clause (iv), parent-pointer form**: in every reachable state a listening non-activated instance whose
+    `parent_uid` is `p` has a parent that is listening or STOPPING (= executing `abort`; its `_abort_flow` is the next
+    operation).  (`LinkInv.linked` supplies "the parent still lists the child"; note the statement order in
+    `_abort_flow`: the removal from the parent's list comes BEFORE the STOPPED mark, both in the straight-line tail.) -/
+theorem lifetime_parent_pointer_form (ops : List IOp) (c p : Nat) (cf pf : Flow) (hc : (run ops).flows c = some cf)
+    (hp : (run ops).flows p = some pf) (hpar : cf.parent = some p) (hl : cf.status.listening = true) (ha : cf.activated = 0) :
+    pf.status.listening = true ∨ pf.status = .stopping :=
+  parent_pointer_form (run ops) (lifetime_invariant ops).flow (lifetime_invariant ops).link c p cf pf hc hp hpar hl ha
+
+/-- the parent of a live instance is a live instance (no dangling `parent_uid` inside a case: no clean-up) -/
+theorem lifetime_parent_live (ops : List IOp) (c p : Nat) (cf : Flow) (hc : (run ops).flows c = some cf) (hpar : cf.parent = some p) :
+    ∃ pf, (run ops).flows p = some pf :=
+  (lifetime_invariant ops).link.parentLive c cf p hc hpar
+
+/-- `q` is reachable from `c` along `parent_uid` through listening non-activated instances -/
+inductive UpChain (s : State) (c : Nat) : Nat → Prop
+  | refl : UpChain s c c
+  | step {q p : Nat} {qf : Flow} : UpChain s c q → s.flows q = some qf → qf.status.listening = true → qf.activated = 0 →
+      qf.parent = some p → UpChain s c p
+
+/-- **transitive parent-pointer form** (the oracle's O2 as a theorem): walking up from a listening instance along
+    `parent_uid` through listening non-activated instances one never meets a FINISHED / STOPPED / WAITING-less ancestor:
+    every instance on the chain is listening or STOPPING.  Contrapositive: below an ended instance nothing that it
+    started (transitively, along non-activated instances) is still listening. -/
+theorem ancestors_listening (ops : List IOp) (c : Nat) (cf : Flow) (hc : (run ops).flows c = some cf)
+    (hl : cf.status.listening = true) (q : Nat) (h : UpChain (run ops) c q) (qf : Flow) (hq : (run ops).flows q = some qf) :
+    qf.status.listening = true ∨ qf.status = .stopping := by
+  induction h generalizing qf with
+  | refl => rw [hc] at hq; cases hq; exact Or.inl hl
+  | step _ hq' hl' ha' hpar _ => exact lifetime_parent_pointer_form ops _ _ _ qf hq' hq hpar hl' ha'
+
+/-- non-vacuity of `UpChain` / the parent-pointer form: main (0) starts flow 1 which starts flow 2 -/
+example : UpChain (run [.status 0 .starting, .status 0 .started, .startChild 1 1 0 0, .status 1 .starting,
+    .status 1 .started, .startChild 2 2 1 0]) 2 0 :=
+  .step (.step .refl (qf := { freshFlow 2 with parent := some 1 }) rfl (by decide) (by decide) rfl)
+    (qf := { freshFlow 1 with parent := some 0, status := .started, children := [2] }) rfl (by decide) (by decide) rfl
+
+/-- **clause (iii)**: in every reachable state a STARTING/STARTED action that has not been sent a `Stop` has
+    `1 ≤ flow_scope_count ≤ holders`, hence is in the `action_uids` of an instance that is listening or STOPPING. -/
+theorem running_action_has_holder (ops : List IOp) (a : Nat) (x : Action) (hx : (run ops).actions a = some x)
+    (hr : x.status.running = true) (h0 : stops a (run ops).out = 0) :
+    1 ≤ x.count ∧ x.count ≤ (holders (run ops) a : Int) ∧
+    ∃ v f, v ∈ (run ops).order ∧ (run ops).flows v = some f ∧ (f.status.listening = true ∨ f.status = .stopping) ∧
+      a ∈ f.actionUids :=
+  ⟨(lifetime_invariant ops).act.act1 a x hx hr h0, (lifetime_invariant ops).cnt.le a x hx hr (by simpa using h0) |> (by simpa using ·),
+   count_has_holder (lifetime_invariant ops).cnt (lifetime_invariant ops).act a x hx hr h0⟩
+
+/-- the equality `flow_scope_count = holders` does NOT hold in the code as it is: `EndScope` decrements the count of a
+    shared action without removing it from `action_uids` (the second decrement comes when the flow ends).  History:
+    main starts action 7; flow 1 co-wins onto it (count 2); main's scope that registered 7 ends (count 1, no Stop):
+    the action is running, not stopped, count 1, held by two listening instances. -/
+def cexOps : List IOp :=
+  [.status 0 .starting, .status 0 .started, .newAction 0 7, .startAction 7,
+   .startChild 1 1 0 0, .status 1 .starting, .status 1 .started, .newAction 1 8, .coWin 1 7 8,
+   .frame 0 1 [(5, [], [7])], .endScope 3 0 5]
+
+theorem count_eq_as_is_counterexample :
+    (run cexOps).actions 7 = some ⟨.starting, 1⟩ ∧ holders (run cexOps) 7 = 2 ∧ stops 7 (run cexOps).out = 0 := by
+  decide
 
 /-! ## fuel: `abort_fuel_sufficient`, and what happens on a cyclic child graph -/
 
